@@ -4,6 +4,7 @@ import (
 	"bytes"
 	"crypto/ed25519"
 	"crypto/sha256"
+	"encoding/json"
 	"fmt"
 	"os"
 	"path/filepath"
@@ -57,25 +58,30 @@ import (
 //	    code under test keeps nothing outside the directory (an assumption listed in the evidence; search (1) does not
 //	    rely on it) and every step has just confirmed that the disk agrees with the model.
 //
-// Both searches execute one history of each pair that differs only by swapping the passphrases P and Q (or the
+//	(3) one directory with by-hand key-file shapes as targets of the writes: shapes_test.go.
+//
+// Searches (1) and (2) execute one history of each pair that differs only by swapping the passphrases P and Q (or the
 // directories a and b), see seqCanonical; the numbers before and after that reduction are in the evidence.
 //
 // Tags are computed from the history and the model only (operation, what the target held, how the passphrase relates
 // to the saved one, what the model expects of the call), never from an error text.
 
 type seqOp struct {
-	Op   string `json:"op"`            // create | load | export | import-fixed | xfer | import-junk | delete
-	Dir  string `json:"dir"`           // the directory the operation works on (xfer: the import target)
-	Src  string `json:"src,omitempty"` // xfer: the directory the key is exported from (with the passphrase it was saved under)
-	Pass string `json:"pass,omitempty"`
+	Op    string `json:"op"`            // create | load | export | import-fixed | xfer | import-junk | delete | plant | reindent
+	Dir   string `json:"dir"`           // the directory the operation works on (xfer: the import target)
+	Src   string `json:"src,omitempty"` // xfer: the directory the key is exported from (with the passphrase it was saved under)
+	Pass  string `json:"pass,omitempty"`
+	Shape string `json:"shape,omitempty"` // plant: name of the file shape written over signer.json by hand (shapes_test.go)
 }
 
 func (o seqOp) String() string {
 	switch o.Op {
 	case "xfer":
 		return fmt.Sprintf("export(%s,<its passphrase>)→import(%s,%s)", o.Src, o.Dir, o.Pass)
-	case "delete", "import-junk":
+	case "delete", "import-junk", "reindent":
 		return o.Op + "(" + o.Dir + ")"
+	case "plant":
+		return "plant(" + o.Dir + "," + o.Shape + ")"
 	}
 	return fmt.Sprintf("%s(%s,%s)", o.Op, o.Dir, o.Pass)
 }
@@ -167,8 +173,20 @@ type mkey struct {
 	pub    crypto.PubKey
 	priv   []byte // known once the harness has seen it (imported by the harness, or a judged export)
 	pass   string
-	origin string // created | imported
+	origin string // created | imported | planted
 	file   []byte // bytes of signer.json as read back after the write
+	// files the package did not write in this form (shapes_test.go)
+	shape  string // "" = as written by the package in this history; otherwise the name of the by-hand shape
+	junk   bool   // the file holds NO key (empty, junk, a damaged key file); pub/priv/pass then describe the key it was damaged from, if any
+	legacy bool   // salt-less format: opening it costs no Argon2 run
+}
+
+// holds: the key the model says the directory holds (nil: no file, or a file without a key).
+func holds(e *mkey) *mkey {
+	if e == nil || e.junk {
+		return nil
+	}
+	return e
 }
 
 type seqRun struct {
@@ -178,9 +196,11 @@ type seqRun struct {
 	viol    []vf.Violation
 	stopped bool   // the history ended early (violation, or a state the model does not describe)
 	last    string // result class of the last executed step
+	pre     *mkey  // what the model knew about the target's key file BEFORE the step under execution (for the tags)
 	ops     int
-	kdf     int  // Argon2 key derivations the operations must have made according to the model (work measure)
-	wrote   bool // at least one successful write: the history reached key derivation
+	kdf     int    // Argon2 key derivations the operations must have made according to the model (work measure)
+	wrote   bool   // at least one successful write: the history reached key derivation
+	over    string // set by the last step of the history when it is a successful (and, with SeqVerify, confirmed) write
 	notes   map[string]bool
 }
 
@@ -197,8 +217,13 @@ func readKeyFile(dir string) ([]byte, bool) {
 func (s *seqRun) tags(i int, expect string) []string {
 	op := s.c.Seq[i]
 	t := []string{"section=sequence", "op=" + op.Op, fmt.Sprintf("dirs=%d", len(s.c.SeqDirs)), "expect=" + expect}
-	k := s.m[op.Dir]
-	if k == nil {
+	k := holds(s.pre)
+	if s.pre != nil && s.pre.shape != "" {
+		t = append(t, "target-file="+s.pre.shape)
+	}
+	if s.pre != nil && s.pre.junk {
+		t = append(t, "target=file-without-key")
+	} else if k == nil {
 		t = append(t, "target=empty")
 	} else {
 		t = append(t, "target=holds-key")
@@ -278,12 +303,21 @@ func (s *seqRun) settle(i int, expect string) {
 			s.last = "unmodelled:key-file-appeared"
 			return
 		case exists && bytes.Equal(now, k.file):
+		case k.junk:
+			// a file WITHOUT a key was changed or removed by an operation that was not a successful write: there is no
+			// saved key the statement could speak about; recorded, not judged (the model follows the disk)
+			s.notes["file-without-key-changed-after-"+expect] = true
+			if !exists {
+				delete(s.m, d)
+			} else {
+				k.file, k.shape = now, k.shape+"*changed"
+			}
 		default:
 			what := "was changed"
 			if !exists {
 				what = "is gone"
 			}
-			if exists {
+			if exists && !k.legacy {
 				s.kdf++
 			}
 			sg, err, pan := safeLoad(s.path(d), seqPassBytes[k.pass])
@@ -380,22 +414,77 @@ func (s *seqRun) written(i int, expect, d string, k *mkey, what string) bool {
 	return true
 }
 
+// confirmWrite (searches that set SeqVerify): a call that reported a successful write of key k under passphrase X has
+// SAVED k under X — so it loads with X, to k, right away. This is what lets the file-shape search merge histories on
+// the model state after a write (the disk has just been confirmed to agree with the model); the clause is the one the
+// statement gives for the operation: right-passphrase-loads-same-key (create, import), export-import (export→import).
+func (s *seqRun) confirmWrite(i int, expect, d, clause, what string) bool {
+	if !s.c.SeqVerify {
+		return true
+	}
+	k := s.m[d]
+	s.kdf++
+	sg, err, pan := safeLoad(s.path(d), seqPassBytes[k.pass])
+	switch {
+	case pan != "":
+		s.report(i, "panic", expect, "LoadFileSystemSigner panics right after "+what+" reported success: "+pan)
+	case err != nil:
+		over := "a directory without a key file"
+		if s.pre != nil {
+			over = fmt.Sprintf("an existing signer.json of %d bytes (%s)", len(s.pre.file), s.pre.describe())
+		}
+		s.report(i, clause, expect, fmt.Sprintf("%s over %s reports success and leaves a signer.json of %d bytes, but the key it claims to have saved under %s does not load with that passphrase: %v", what, over, len(k.file), k.pass, err))
+	default:
+		return s.judgeSigner(i, expect, "the signer loaded right after "+what, sg, k)
+	}
+	return false
+}
+
+func (k *mkey) describe() string {
+	sh := k.shape
+	if sh == "" {
+		sh = "as written by the package"
+	}
+	if k.junk {
+		return "a file without a key: " + sh
+	}
+	return fmt.Sprintf("%s key saved under %s, %s", k.origin, k.pass, sh)
+}
+
 func (s *seqRun) step(i int) {
 	op := s.c.Seq[i]
 	dir := s.path(op.Dir)
-	k := s.m[op.Dir]
+	entry := s.m[op.Dir] // what the model knows about the target's key file (nil: there is none)
+	k := holds(entry)    // the key it holds (nil also for a file without a key)
+	s.pre = entry
 	pass := seqPassBytes[op.Pass]
 	s.ops++
-	switch {
-	case op.Op == "xfer" && s.m[op.Src] != nil:
+	if i == len(s.c.Seq)-1 {
+		defer func() {
+			if now := s.m[op.Dir]; !s.stopped && now != nil && now != entry && now.shape == "" && (op.Op == "create" || op.Op == "import-fixed" || op.Op == "xfer") {
+				was := "no key file"
+				if entry != nil {
+					was = "a package-written file"
+					if entry.shape != "" {
+						was = entry.shape
+					}
+				}
+				s.over = op.Op + " over " + was
+			}
+		}()
+	}
+	switch src := holds(s.m[op.Src]); {
+	case op.Op == "xfer" && src != nil && src.legacy:
+		s.kdf++
+	case op.Op == "xfer" && src != nil:
 		s.kdf += 2
-	case op.Op == "import-fixed", op.Op == "create" && k == nil, (op.Op == "load" || op.Op == "export") && k != nil:
+	case op.Op == "import-fixed", op.Op == "create" && entry == nil, (op.Op == "load" || op.Op == "export") && k != nil && !k.legacy:
 		s.kdf++
 	}
 	switch op.Op {
 	case "create":
 		expect := "a write"
-		if k != nil {
+		if entry != nil {
 			expect = "refused"
 		}
 		sg, err, pan := safeCreate(dir, pass)
@@ -403,9 +492,12 @@ func (s *seqRun) step(i int) {
 		case pan != "":
 			s.report(i, "panic", expect, "CreateFileSystemSigner panics: "+pan)
 			return
-		case err != nil && k == nil:
-			s.report(i, "right-passphrase-loads-same-key", expect, "CreateFileSystemSigner fails on a directory that holds no key: "+err.Error())
+		case err != nil && entry == nil:
+			s.report(i, "right-passphrase-loads-same-key", expect, "CreateFileSystemSigner fails on a directory that holds no key file: "+err.Error())
 			return
+		case err != nil && k == nil:
+			// a signer.json without a key is in the way: whether create refuses it or replaces it is not judged
+			s.last = "create:refused-file-without-key-in-the-way"
 		case err != nil:
 			s.last = "create:refused-directory-holds-a-key"
 		default:
@@ -433,10 +525,13 @@ func (s *seqRun) step(i int) {
 				// not judged: the statement does not say that create must refuse; the model follows what the call reported
 				s.notes["create-replaced-an-existing-key"] = true
 				s.last = "create:replaced-existing-key"
+			} else if entry != nil {
+				s.notes["create-replaced-a-file-without-key"] = true
+				s.last = "create:replaced-file-without-key"
 			} else {
 				s.last = "create:created"
 			}
-			if !s.written(i, expect, op.Dir, nk, "CreateFileSystemSigner") {
+			if !s.written(i, expect, op.Dir, nk, "CreateFileSystemSigner") || !s.confirmWrite(i, expect, op.Dir, "right-passphrase-loads-same-key", "CreateFileSystemSigner") {
 				return
 			}
 		}
@@ -448,9 +543,16 @@ func (s *seqRun) step(i int) {
 		case pan != "":
 			s.report(i, "panic", expect, "LoadFileSystemSigner panics: "+pan)
 			return
+		case k == nil && err == nil && s.damagedStillItsKey(entry, op.Pass, sg, nil):
+			return
+		case k == nil && err == nil && entry != nil:
+			s.report(i, "loaded-signer-consistent", expect, "LoadFileSystemSigner returns a signer from "+entry.describe())
+			return
 		case k == nil && err == nil:
 			s.report(i, "loaded-signer-consistent", expect, "LoadFileSystemSigner returns a signer from a directory that holds no key")
 			return
+		case k == nil && entry != nil:
+			s.last = "load:refused-file-without-key"
 		case k == nil:
 			s.last = "load:refused-no-key"
 		case op.Pass != k.pass && err == nil:
@@ -475,9 +577,16 @@ func (s *seqRun) step(i int) {
 		case pan != "":
 			s.report(i, "panic", expect, "ExportPrivateKey panics: "+pan)
 			return
+		case k == nil && err == nil && s.damagedStillItsKey(entry, op.Pass, nil, got):
+			return
+		case k == nil && err == nil && entry != nil:
+			s.report(i, "loaded-signer-consistent", expect, "ExportPrivateKey returns a key from "+entry.describe())
+			return
 		case k == nil && err == nil:
 			s.report(i, "loaded-signer-consistent", expect, "ExportPrivateKey returns a key from a directory that holds no key")
 			return
+		case k == nil && entry != nil:
+			s.last = "export:refused-file-without-key"
 		case k == nil:
 			s.last = "export:refused-no-key"
 		case op.Pass != k.pass && err == nil:
@@ -506,21 +615,27 @@ func (s *seqRun) step(i int) {
 			return
 		}
 		pk, _ := crypto.UnmarshalEd25519PrivateKey(priv)
-		if !s.written(i, expect, op.Dir, &mkey{pub: pk.GetPublic(), priv: priv, pass: op.Pass, origin: "imported"}, "ImportPrivateKey") {
+		if !s.written(i, expect, op.Dir, &mkey{pub: pk.GetPublic(), priv: priv, pass: op.Pass, origin: "imported"}, "ImportPrivateKey") ||
+			!s.confirmWrite(i, expect, op.Dir, "right-passphrase-loads-same-key", "ImportPrivateKey") {
 			return
 		}
 		s.last = "import:imported"
 		if k != nil {
 			s.last = "import:replaced-existing-key"
+		} else if entry != nil {
+			s.last = "import:replaced-file-without-key"
 		}
 		s.settle(i, expect)
 	case "xfer":
-		src := s.m[op.Src]
+		src := holds(s.m[op.Src])
 		if src == nil {
 			expect := "refused"
-			_, err, pan := safeExport(s.path(op.Src), seqPassBytes["P"])
+			got, err, pan := safeExport(s.path(op.Src), seqPassBytes["P"])
 			if pan != "" {
 				s.report(i, "panic", expect, "ExportPrivateKey panics: "+pan)
+				return
+			}
+			if err == nil && s.damagedStillItsKey(s.m[op.Src], "P", nil, got) {
 				return
 			}
 			if err == nil {
@@ -551,12 +666,15 @@ func (s *seqRun) step(i int) {
 			s.report(i, "export-import", expect, "ImportPrivateKey fails on an exported key: "+err.Error())
 			return
 		}
-		if !s.written(i, expect, op.Dir, &mkey{pub: src.pub, priv: append([]byte(nil), got...), pass: op.Pass, origin: "imported"}, "ImportPrivateKey") {
+		if !s.written(i, expect, op.Dir, &mkey{pub: src.pub, priv: append([]byte(nil), got...), pass: op.Pass, origin: "imported"}, "ImportPrivateKey") ||
+			!s.confirmWrite(i, expect, op.Dir, "export-import", "ImportPrivateKey of the key just exported") {
 			return
 		}
 		s.last = "xfer:imported"
 		if k != nil {
 			s.last = "xfer:replaced-existing-key"
+		} else if entry != nil {
+			s.last = "xfer:replaced-file-without-key"
 		}
 		s.settle(i, expect)
 	case "import-junk":
@@ -582,10 +700,76 @@ func (s *seqRun) step(i int) {
 		delete(s.m, op.Dir)
 		s.last = "delete:by-hand"
 		s.settle(i, "a write")
+	case "plant":
+		// by hand: signer.json is replaced by a file the package did not write in this form (shapes_test.go)
+		sh, msg := seqShapeByName(op.Shape)
+		if sh == nil {
+			s.stopped = true
+			s.last = "engine:" + msg
+			return
+		}
+		if err := os.MkdirAll(dir, 0o700); err == nil {
+			err = os.WriteFile(filepath.Join(dir, "signer.json"), sh.file, 0o600)
+			if err != nil {
+				s.stopped = true
+				s.last = "engine:" + err.Error()
+				return
+			}
+		} else {
+			s.stopped = true
+			s.last = "engine:" + err.Error()
+			return
+		}
+		s.m[op.Dir] = sh.entry()
+		s.last = "plant:" + map[bool]string{true: "file-without-key", false: "file-with-key"}[sh.junk]
+		s.settle(i, "a write")
+	case "reindent":
+		// by hand: the key file the package wrote is re-formatted in place (json.Indent): same key, same passphrase, longer file
+		if k == nil || k.shape != "" {
+			s.stopped = true
+			s.last = "reindent:not-enabled"
+			return
+		}
+		var buf bytes.Buffer
+		if err := json.Indent(&buf, k.file, "", "  "); err != nil {
+			s.stopped = true
+			s.last = "reindent:not-enabled-file-is-not-json"
+			return
+		}
+		if err := os.WriteFile(filepath.Join(dir, "signer.json"), buf.Bytes(), 0o600); err != nil {
+			s.stopped = true
+			s.last = "engine:" + err.Error()
+			return
+		}
+		k.file, k.shape = buf.Bytes(), "reindented"
+		s.last = "reindent:by-hand"
+		s.settle(i, "a write")
 	default:
 		s.stopped = true
 		s.last = "engine:unknown operation " + op.Op
 	}
+}
+
+// damagedStillItsKey: a file the model counts as "without a key" because it was DAMAGED by hand (bytes appended to a
+// valid key file) opened with the passphrase of the key it was made from, and the code returned exactly that key. The
+// statement forbids a usable signer from a corrupted file only in the sense of a wrong one (cf. the assumption on
+// mutated files that still decode to the original key material): recorded, not judged, and the history ends here.
+func (s *seqRun) damagedStillItsKey(e *mkey, pass string, sg signer.Signer, exported []byte) bool {
+	if e == nil || !e.junk || e.pub == nil || pass != e.pass {
+		return false
+	}
+	if sg != nil {
+		origPriv, _ := crypto.UnmarshalEd25519PrivateKey(e.priv)
+		if kind, _ := checkSignerAgainst(sg, e.pub, origPriv); kind != "" {
+			return false
+		}
+	} else if !bytes.Equal(exported, e.priv) {
+		return false
+	}
+	s.notes["damaged-file-still-opens-to-its-key"] = true
+	s.stopped = true
+	s.last = "unmodelled:damaged-file-still-opens-to-its-key"
+	return true
 }
 
 // stateKey is the canonical model state (see the comment at the top).
@@ -593,8 +777,11 @@ func (s *seqRun) stateKey() string {
 	var parts []string
 	var first crypto.PubKey
 	for _, d := range s.c.SeqDirs {
-		k := s.m[d]
+		k := holds(s.m[d])
 		p := d + ":-"
+		if e := s.m[d]; e != nil && e.junk {
+			p = d + ":file-without-key/" + e.shape
+		}
 		if k != nil {
 			id := 0
 			if first == nil {
@@ -603,6 +790,13 @@ func (s *seqRun) stateKey() string {
 				id = 1
 			}
 			p = fmt.Sprintf("%s:%s/%s/key%d", d, k.origin, k.pass, id)
+			// the form of the file is part of the state: the by-hand shape, or — for a file the package wrote — its
+			// length (all fields have a fixed length, so on a correct tree this adds no states)
+			if k.shape != "" {
+				p += "/shape=" + k.shape
+			} else {
+				p += fmt.Sprintf("/len=%d", len(k.file))
+			}
 		}
 		var stray []string
 		if es, err := os.ReadDir(s.path(d)); err == nil {
@@ -668,6 +862,7 @@ func runSequence(c *tcase, root string) (v verdict, key string, stopped bool, no
 	seqKDF.Add(int64(s.kdf))
 	v.viol = s.viol
 	v.nontrivial = s.wrote
+	v.overwrote = s.over
 	v.outcome = "sequence|" + s.last
 	if strings.HasPrefix(s.last, "engine:") {
 		v.outcome = "sequence|engine:" + strings.TrimPrefix(s.last, "engine:")
